@@ -31,7 +31,7 @@ from .sched import Deadlock, Scheduler, StepCap, swap_locks
 from .world import HarnessError, InjectedFault, Violation, real_children
 
 READER_OPS = ("save", "save_vm", "save_path", "copy", "filtered", "copy_to", "to_dict_list", "to_dotfile",
-              "with_list", "save_meta")
+              "with_list", "save_meta", "to_dotfile_path")
 
 
 # ------------------------------------------------------------------------------
@@ -103,7 +103,7 @@ def expected_of(op_kind: str, mclone: MTree, typed: bool, name=None):
         return canon_names(c)
     if op_kind == "with_list":
         return tuple(preorder(c))
-    if op_kind == "to_dotfile":
+    if op_kind in ("to_dotfile", "to_dotfile_path"):
         return tuple(edges_of(c))
     if op_kind == "filtered":
         names = {}
@@ -204,10 +204,14 @@ def draw_c18_cfg(rng, tier):
         "reader_ops": rng.sample(READER_OPS, rng.randint(2, len(READER_OPS))),
         "unique_labels": True,
     }
-    if "save_meta" in cfg["reader_ops"] and "to_dotfile" in cfg["reader_ops"]:
+    dots = [o for o in cfg["reader_ops"] if o.startswith("to_dotfile")]
+    if "save_meta" in cfg["reader_ops"] and dots:
         # save_meta worlds give nodes explicit data_ids (only such entries reach the
         # mapper); the DOT decoder identifies nodes by label, so the two do not mix
-        cfg["reader_ops"].remove(rng.choice(["save_meta", "to_dotfile"]))
+        if rng.random() < 0.5:
+            cfg["reader_ops"].remove("save_meta")
+        else:
+            cfg["reader_ops"] = [o for o in cfg["reader_ops"] if o not in dots]
     return cfg
 
 
@@ -402,6 +406,19 @@ def c18_run(base_seed, index, tier, nt, *, forced=None, cfg_override=None,
                     raise InjectedFault("io") from None
                 raise
             return decode_dot(fp.getvalue())
+        if kind == "to_dotfile_path":
+            from .ops_store import _scratch_dir
+
+            path = os.path.join(_scratch_dir(world), f"c18-{sched.current.name}.gv")
+            try:
+                tree.to_dotfile(path)
+                with open(path, encoding="utf8") as f:
+                    return decode_dot(f.read())
+            finally:
+                try:
+                    os.unlink(path)
+                except OSError:
+                    pass
         if kind == "with_list":
             with tree:
                 enter_cs_reader()
